@@ -64,6 +64,11 @@ def cases(shard, nshards, seed, tier):
         for variant in ("as-deposited", "without-canonical-sequence"):
             if mine():
                 yield {"family": "deposited-file", "file": fn, "variant": variant}
+    # ensembles whose models are not numbered 1..N (zero-based, or a selection), through the table-level reader and the
+    # PDB writer: a requested model is that model, from every reader
+    for numbering in ([0, 1, 2], [2, 5], [1, 2, 3]):
+        if mine():
+            yield {"family": "models-not-numbered-from-one", "numbering": numbering}
     # more than ten thousand residue numbers in one table (solvent of a large entry) next to two short RNA chains
     if mine():
         yield {"family": "ten-thousand-residues"}
@@ -328,6 +333,44 @@ def _deposited(case, rec):
     rec.count("note:deposited-chi-compared", n)
 
 
+def _model_numbers(case, rec):
+    from rnapolis import parser_v2, tertiary_v2
+
+    s = gen3d.load("tests/1E7K_1_C.cif", 1)
+    tmpl = gentab.template_rows(s, max_res=5, start=2)
+    rows = []
+    for idx, m in enumerate(case["numbering"]):
+        for r in tmpl:
+            rows.append(dict(r, model=m, alt=None, occ=1.0, b=0.0, x=round(r["x"] + 5.0 * idx, 3)))
+    for i, r in enumerate(rows, 1):
+        r["serial"] = i
+    if any(len(r["chain"] or "") != 1 for r in rows):
+        return
+    det = lambda extra=None: {"case": {"family": "models-not-numbered-from-one", "numbering": case["numbering"]}, "info": extra}
+    rec.mark_nontrivial(True)
+    try:
+        df = parser_v2.parse_cif_atoms(emit.emit_cif(rows))
+        pdb_text = parser_v2.write_pdb(parser_v2.fit_to_pdb(df))
+        cif_text = parser_v2.write_cif(df)
+    except Exception as e:
+        rec.violation("readers.no-crash", det(repr(e)[:300]), mechanism=f"crash:{type(e).__name__}")
+        return
+    for m in case["numbering"]:
+        amap, _ = abstract_map([r for r in rows if r["model"] == m])
+        readings = {}
+        try:
+            readings["v1-pdb-written-by-the-library"] = v1_map(emit.read_text(pdb_text, ".pdb", m))[0]
+            readings["v1-cif-written-by-the-library"] = v1_map(emit.read_text(cif_text, ".cif", m))[0]
+            d2 = parser_v2.parse_pdb_atoms(pdb_text)
+            readings["v2-pdb-written-by-the-library"] = v2_map(tertiary_v2.Structure(d2[d2["model"] == m]))[0]
+        except Exception as e:
+            rec.violation("readers.no-crash", det({"model": m, "exception": repr(e)[:300]}), mechanism=f"crash:{type(e).__name__}")
+            continue
+        for name, mp in readings.items():
+            d = diff_maps(amap, mp)
+            rec.check("models.requested-model-from-every-reader", d is None, lambda: det({"model": m, "reader": name, "vs-table": d}))
+
+
 def _ten_thousand(case, rec):
     from rnapolis import parser_v2, tertiary_v2
 
@@ -371,6 +414,8 @@ def run_case(case, rec):
         return _ten_thousand(case, rec)
     if case["family"] == "deposited-file":
         return _deposited(case, rec)
+    if case["family"] == "models-not-numbered-from-one":
+        return _model_numbers(case, rec)
 
     seed = os.environ.get("VERIF_SEED", "0")
     if case["family"] == "generated":
